@@ -200,6 +200,8 @@ class Fn:
             return "this"
         if k == "member":
             b = T(n["base"])
+            if b.endswith("->") and n.get("arrow"):
+                return b + n["name"]        # it->member through an overloaded operator->: one arrow, like the source
             return "%s%s%s" % (b, "->" if n.get("arrow") else ".", n["name"])
         if k == "lit":
             return '"%s"' % n["v"] if n["lk"] == "str" else str(n["v"])
